@@ -25,6 +25,8 @@ type violation struct {
 	Case map[string]interface{} `json:"case"`
 	Exp  string                 `json:"exp"`
 	Obs  string                 `json:"obs"`
+	stage  string // stage whose worker reported it
+	proven bool   // needs no replay confirmation (race detector report)
 	// crash-type candidates (worker died / hung on this case)
 	crash   bool
 	shard   int
@@ -47,6 +49,7 @@ type shardResult struct {
 	lost     []lostCase
 	complete bool
 	wall     float64
+	stderr   string
 }
 
 type snapDoc struct {
@@ -56,7 +59,41 @@ type snapDoc struct {
 	Wall     float64                  `json:"wall_s"`
 }
 
+var stageWorker = map[string]string{}
+
+type stage struct {
+	Name   string
+	Build  string // plain | instr | race
+	Params string
+	Shards int
+	Env    []string
+}
+
+func firstRaceReport(stderr string) string {
+	i := strings.Index(stderr, "WARNING: DATA RACE")
+	if i < 0 {
+		return ""
+	}
+	rep := stderr[i:]
+	if j := strings.Index(rep, "=================="); j > 0 {
+		rep = rep[:j]
+	}
+	var keep []string
+	for _, l := range strings.Split(rep, "\n") {
+		l = strings.TrimSpace(l)
+		if l == "" || strings.HasPrefix(l, "/") && !strings.Contains(l, "mow.cli") {
+			continue
+		}
+		keep = append(keep, l)
+		if len(keep) > 14 {
+			break
+		}
+	}
+	return strings.Join(keep, " | ")
+}
+
 type runner struct {
+	env     []string
 	def     *propDef
 	tier    string
 	worker  string
@@ -84,6 +121,7 @@ func jobs() int {
 func (r *runner) startWorker(args []string) (*exec.Cmd, io.ReadCloser, *bytes.Buffer, error) {
 	cmd := exec.Command(r.worker, args...)
 	cmd.Env = append(os.Environ(), "GOMAXPROCS=2", "GOTRACEBACK=single")
+	cmd.Env = append(cmd.Env, r.env...)
 	stdout, err := cmd.StdoutPipe()
 	if err != nil {
 		return nil, nil, nil, err
@@ -216,11 +254,12 @@ func (r *runner) superviseShard(i int) *shardResult {
 			res.wall += last.Wall
 		}
 		werr := cmd.Wait()
+		res.stderr = errb.String()
 		r.mu.Lock()
 		delete(r.procs, cmd)
 		stopping := r.stopping
 		r.mu.Unlock()
-		if done && werr == nil {
+		if done && (werr == nil || strings.Contains(res.stderr, "DATA RACE")) {
 			res.complete = true
 			return res
 		}
@@ -338,47 +377,101 @@ func cmdRun(prop, tier string) int {
 	if def.Custom != nil {
 		return def.Custom(def, tier, seed)
 	}
-	worker, err := buildWorker(repoDir, false, nil, prop)
-	if err != nil {
-		fmt.Fprintln(os.Stderr, err)
-		fmt.Printf("CHECK-ERROR property=%s the worker does not build against the current tree\n", prop)
-		return 2
-	}
-	defer os.Remove(worker)
-	r := &runner{def: def, tier: tier, worker: worker, nshards: jobs(), props: prop, hang: def.HangSecs, procs: map[*exec.Cmd]bool{}}
-	if r.hang == 0 {
-		r.hang = 20
-	}
-	if def.Params != nil {
-		r.params = def.Params(tier)
+	stages := def.Stages
+	if len(stages) == 0 {
+		stages = []stage{{Name: "main", Build: "plain"}}
 	}
 	budget := def.BudgetS(tier)
 	if v, err := strconv.Atoi(os.Getenv("VERIF_BUDGET_S")); err == nil && v > 0 {
 		budget = v
 	}
-	results := make([]*shardResult, r.nshards)
-	var wg sync.WaitGroup
-	for i := 0; i < r.nshards; i++ {
-		wg.Add(1)
-		go func(i int) {
-			defer wg.Done()
-			results[i] = r.superviseShard(i)
-		}(i)
-	}
-	finished := make(chan struct{})
-	go func() { wg.Wait(); close(finished) }()
+	deadline := time.Now().Add(time.Duration(budget) * time.Second)
+	var results []*shardResult
 	budgetHit := false
-	select {
-	case <-finished:
-	case <-time.After(time.Duration(budget) * time.Second):
-		budgetHit = true
-		r.killAll()
-		<-finished
+	var r *runner
+	var workers []string
+	defer func() {
+		for _, w := range workers {
+			os.Remove(w)
+		}
+	}()
+	stageNotes := map[string]string{}
+	var raceReports []string
+	for _, stg := range stages {
+		var extra map[string]string
+		if stg.Build == "instr" {
+			dir := filepath.Join(buildDir, fmt.Sprintf("instr-%d", os.Getpid()))
+			os.RemoveAll(dir)
+			defer os.RemoveAll(dir)
+			repl, ist, err := instrumentRepo(repoDir, dir)
+			if err != nil {
+				fmt.Fprintln(os.Stderr, err)
+				fmt.Printf("CHECK-ERROR property=%s the instrumenter failed on the current tree\n", prop)
+				return 2
+			}
+			extra = repl
+			stageNotes["instrumentation"] = fmt.Sprintf("%d files instrumented, %d sites (%d tagged accesses to package-level variables); package-level variables of the module: %s", ist.Files, ist.Sites, ist.Tagged, strings.Join(ist.Vars, ", "))
+		}
+		worker, err := buildWorker(repoDir, stg.Build == "race", extra, prop+"-"+stg.Name)
+		if err != nil {
+			fmt.Fprintln(os.Stderr, err)
+			fmt.Printf("CHECK-ERROR property=%s the worker does not build against the current tree\n", prop)
+			return 2
+		}
+		workers = append(workers, worker)
+		r = &runner{def: def, tier: tier, worker: worker, nshards: jobs(), props: prop, hang: def.HangSecs, procs: map[*exec.Cmd]bool{}}
+		if stg.Shards > 0 {
+			r.nshards = stg.Shards
+		}
+		if r.hang == 0 {
+			r.hang = 20
+		}
+		if def.Params != nil {
+			r.params = def.Params(tier)
+		}
+		if stg.Params != "" {
+			r.params = stg.Params
+		}
+		if stg.Env != nil {
+			r.env = stg.Env
+		}
+		sres := make([]*shardResult, r.nshards)
+		var wg sync.WaitGroup
+		for i := 0; i < r.nshards; i++ {
+			wg.Add(1)
+			go func(i int) {
+				defer wg.Done()
+				sres[i] = r.superviseShard(i)
+			}(i)
+		}
+		finished := make(chan struct{})
+		go func() { wg.Wait(); close(finished) }()
+		select {
+		case <-finished:
+		case <-time.After(time.Until(deadline)):
+			budgetHit = true
+			r.killAll()
+			<-finished
+		}
+		r.mu.Lock()
+		r.stopping = false
+		r.mu.Unlock()
+		for _, sr := range sres {
+			if sr != nil && stg.Build == "race" && strings.Contains(sr.stderr, "DATA RACE") {
+				raceReports = append(raceReports, firstRaceReport(sr.stderr))
+			}
+			if sr != nil {
+				for i := range sr.viols {
+					sr.viols[i].stage = stg.Name
+				}
+			}
+		}
+		results = append(results, sres...)
+		stageWorker[stg.Name] = worker
+		if budgetHit {
+			break
+		}
 	}
-	r.mu.Lock()
-	r.stopping = false
-	r.mu.Unlock()
-
 	// aggregate
 	agg := &shardResult{counters: map[string]int64{}, samples: map[string][]interface{}{}, notes: map[string]string{}, complete: true}
 	for _, s := range results {
@@ -406,6 +499,9 @@ func cmdRun(prop, tier string) int {
 		for k, v := range s.notes {
 			agg.notes[k] = v
 		}
+		for k, v := range stageNotes {
+			agg.notes[k] = v
+		}
 		agg.viols = append(agg.viols, s.viols...)
 		agg.lost = append(agg.lost, s.lost...)
 		if !s.complete {
@@ -423,6 +519,14 @@ func cmdRun(prop, tier string) int {
 		}
 		seen[v.Key] = true
 		cands = append(cands, v)
+	}
+	for _, rep := range raceReports {
+		key := "race detector: " + firstLine(rep)
+		if !seen[key] {
+			seen[key] = true
+			cands = append(cands, &violation{Prop: prop, Key: key, proven: true, Case: map[string]interface{}{"check": def.Check, "mode": "race", "report": rep},
+				Exp: "no data race between applications built and run in different goroutines", Obs: rep})
+		}
 	}
 	if def.CrashIsViolation {
 		for _, l := range agg.lost {
@@ -469,7 +573,13 @@ func cmdRun(prop, tier string) int {
 		}
 		_ = idx
 		file := writeReplay(v)
-		ok, why := r.confirmReplay(v, file)
+		if w := stageWorker[v.stage]; w != "" {
+			r.worker = w
+		}
+		ok, why := true, v.Obs
+		if !v.proven {
+			ok, why = r.confirmReplay(v, file)
+		}
 		if !ok {
 			nUnconfirmed++
 			os.Remove(file)
